@@ -25,6 +25,7 @@ import DimModel.Driver.ExtMulti
 import DimModel.Driver.ExtSel
 import DimModel.Driver.ExtGrouped
 import DimModel.Driver.ExtHeap
+import DimModel.Driver.ExtOpVals
 import DimModel.Lib.DatasetCtor
 import DimModel.Driver.ExtC14Ops
 import DimModel.Driver.ExtC14Ops3
@@ -534,6 +535,7 @@ def handle (op : String) (req : Json) : P (List (String × Json)) := do
               | .ok (_, s) => encDS s (.ok ())
               | .error e => Json.mkObj [("err", encErr e)])]
   | "redx" => handleRedX req
+  | "opx" => handleOpX req
   | "heapx_history" => handleHeapX heapOp encArrObs req
   | "grouped_cache" => match handleGrouped op req with | some r => r | none => throw s!"unknown op {op}"
   | _ => match ((handleCache op req).orElse (fun _ => handleMulti op req)).orElse (fun _ => handleSel op req) with | some r => r | none => throw s!"unknown op {op}"
